@@ -121,6 +121,7 @@ def handleVOp (acc : Acc) (h : VHist) (kv : KV) (line : String) : Acc × VHist :
   let ok := kv.bool "ok"
   let snd := kv.nat "snd"
   let acc := { acc with checked := acc.checked + 1 }
+  let acc := acc.cover s!"vamm.{op}:{if ok then "ok" else "err"}"
   -- generic observation checks
   let acc := specC01 acc h post line
   let acc := if Spec.C18.snapshotsOk post.st env then acc
